@@ -716,6 +716,21 @@ func (v *Verifier) evalCall(env *Env, e *Expr) *Val {
 			unsupportedf("hasdyntype: unknown type %s", tn)
 		}
 		return boolVal(And(Neq(a.Term, IntLit(0)), Eq(dynType(a.Term), typeID(bt))))
+	case "unboxval":
+		// unboxval(v, "pkg.T"): the struct value of type T stored in interface value v
+		a := arg(0)
+		n := v.namedByName(args[1].Lit)
+		if n == nil {
+			unsupportedf("unboxval: unknown type %s", args[1].Lit)
+		}
+		var ls []leafInfo
+		leaves(n, "", &ls)
+		ts := make([]*Term, len(ls))
+		for i, l := range ls {
+			ts[i] = UF("unbox$"+typeName(n)+"$"+l.Path, l.Sort, a.Term)
+		}
+		i := 0
+		return unflatten(n, ts, &i)
 	case "unboxptr":
 		// unboxptr(v, "pkg.T"): the *T stored in interface value v
 		a := arg(0)
@@ -867,6 +882,32 @@ func (v *Verifier) calleeArgType(env *Env, l, kind string, idx int) types.Type {
 		unsupportedf("arg/ret outside a function contract")
 	}
 	if t, ok := env.X.calleeTypes[fmt.Sprintf("%s$%s$%d", kind, l, idx)]; ok {
+		return t
+	}
+	// the label may be declared by another function's contract (its log is global ghost state)
+	if v.labelSiteTypes == nil {
+		v.labelSiteTypes = map[string]types.Type{}
+		var keys []string
+		for k := range v.C.Funcs {
+			keys = append(keys, k)
+		}
+		sort.Strings(keys)
+		for _, k := range keys {
+			fc := v.C.Funcs[k]
+			fn := v.P.Funcs[k]
+			if fn == nil || len(fc.Of("callee")) == 0 {
+				continue
+			}
+			tx := &Exec{V: v, Fn: fn, FC: fc, calleeTypes: map[string]types.Type{}, chanKeys: map[string]string{}}
+			tx.prescan()
+			for kk, t := range tx.calleeTypes {
+				if _, dup := v.labelSiteTypes[kk]; !dup {
+					v.labelSiteTypes[kk] = t
+				}
+			}
+		}
+	}
+	if t, ok := v.labelSiteTypes[fmt.Sprintf("%s$%s$%d", kind, l, idx)]; ok {
 		return t
 	}
 	unsupportedf("no call site bound to callee label %s (for %s %d)", l, kind, idx)
